@@ -65,7 +65,10 @@ def _memmap(vals, dtype):
     m = np.memmap(f.name, dtype=dtype, mode="w+", shape=(max(len(vals), 1),))
     m = m[:len(vals)]
     m[:] = vals
-    m._c20_file = f          # keep the file alive as long as the map
+    try:
+        m._c20_file = f      # keep the file alive as long as the map
+    except AttributeError:   # an empty slice of a memmap is a plain ndarray (numpy 2): nothing to keep alive
+        pass
     return m
 
 
